@@ -1,4 +1,5 @@
 import CollectionsC.Proofs.DynamicPool
+import CollectionsC.Proofs.DynamicPoolAcct
 /-! # C13 — CC_DynamicPool: disjoint in-bounds blocks, expansion, alignment, full release
 
 Statements only (helpers in `Proofs/DynamicPool.lean`).  The concrete model `CC.DynamicPool`
@@ -242,6 +243,26 @@ theorem new_history_malloc_safe (grow : Nat → Nat) (fresh size ab : Nat) (fixe
   simp only at hb
   rw [← hr.2] at hb
   exact ⟨hb.1, hb.2.1, hb.2.2.2.1⟩
+
+/-- **The accounting-only twin used for sessions with pages of many megabytes** (`phys=quiet` in the
+correspondence check: page contents are not materialised on the Lean side) is the model itself with
+the bytes and ghost lists projected away: every operation returns the same pointer, the same ledger
+and the same C fields, so what the check compares there is still this model. -/
+theorem acct_twin_agrees (grow : Nat → Nat) (fresh : Nat) (s : DynamicPool) (m : Mem) (h : s.Inv) :
+    (∀ n, (DynamicPool.malloc grow fresh s n m).1 = (DynamicPool.Acct.malloc grow s.acct n m).1 ∧
+          (DynamicPool.malloc grow fresh s n m).2.1.acct = (DynamicPool.Acct.malloc grow s.acct n m).2.1 ∧
+          (DynamicPool.malloc grow fresh s n m).2.2 = (DynamicPool.Acct.malloc grow s.acct n m).2.2) ∧
+    (∀ c k, (DynamicPool.calloc grow fresh s c k m).1 = (DynamicPool.Acct.calloc grow s.acct c k m).1 ∧
+          (DynamicPool.calloc grow fresh s c k m).2.1.acct = (DynamicPool.Acct.calloc grow s.acct c k m).2.1 ∧
+          (DynamicPool.calloc grow fresh s c k m).2.2 = (DynamicPool.Acct.calloc grow s.acct c k m).2.2) ∧
+    (∀ p, (s.release p).acct = s.acct.release p) ∧
+    ((s.reset m).1.acct = (s.acct.reset m).1 ∧ (s.reset m).2 = (s.acct.reset m).2) ∧
+    s.destroy m = s.acct.destroy m ∧
+    (∀ off n v, (s.write off n v m).1.acct = s.acct ∧ (s.write off n v m).2 = s.acct.write off n m) ∧
+    (s.usedBytes = s.acct.usedBytes ∧ s.freeBytes = s.acct.freeBytes) :=
+  ⟨fun n => DynamicPool.malloc_acct grow fresh s n m, fun c k => DynamicPool.calloc_acct grow fresh s c k m h,
+   fun p => DynamicPool.release_acct s p, DynamicPool.reset_acct s m, DynamicPool.destroy_acct s m,
+   fun off n v => DynamicPool.write_acct s off n v m h, DynamicPool.used_free_acct s⟩
 
 /-! ## The property in its own vocabulary (facts about the page/block spec) -/
 
